@@ -26,7 +26,7 @@ UNIT_TIMEOUT = {"quick": 200, "thorough": 600}
 # In both the patched name is not in the owner's own __dict__ before the patch and must not be afterwards.
 TARGETS = ["fn", "meth", "cmeth", "smeth", "const", "sub_meth", "sub_cmeth", "sub_smeth", "inst_meth"]
 ABSENT = object()
-REPLS = ["default", "function", "bound", "callable_obj", "explicit_mock", "new_callable", "noncallable", "classmethod_fn", "staticmethod_fn", "spec_set"]
+REPLS = ["default", "function", "bound", "callable_obj", "explicit_mock", "new_callable", "noncallable", "classmethod_fn", "staticmethod_fn", "spec_set", "new_callable_fn", "new_callable_bound", "new_callable_obj"]
 ACTS = ["with", "decorator", "classdeco", "startstop"]
 EXITS = ["normal", "exception", "stopall"]
 COMPS = ["single", "nested", "nested_same_replacement", "sequential", "same_patcher_again"]
@@ -152,6 +152,20 @@ def make_replacement(kind, rec):
         return {"new_callable": mock.MagicMock}, "mock"
     if kind == "noncallable":
         return {"new": 42}, None
+    if kind == "new_callable_fn":
+        # a factory whose product is a plain function / a bound method / a callable object
+        def factory():
+            def new(*args, **kwargs):
+                rec.calls.append((args, tuple(sorted(kwargs.items()))))
+                return ("replaced", len(args))
+
+            return new
+
+        return {"new_callable": factory}, None
+    if kind == "new_callable_bound":
+        return {"new_callable": lambda: rec.method}, None
+    if kind == "new_callable_obj":
+        return {"new_callable": lambda: CallableObj(rec)}, None
     if kind == "spec_set":
         # a strict default mock: whether or not such a patch can be entered, the target must be restored
         return {"spec_set": True}, "mock"
@@ -232,7 +246,7 @@ def check_inside_one(get, entered, rec, repl, target, viol, via):
         want = None
         if repl == "classmethod_fn":
             want = (via, 3)  # a classmethod replacement is bound to the class it is reached through
-        elif repl in ("staticmethod_fn", "bound", "callable_obj"):
+        elif repl in ("staticmethod_fn", "bound", "callable_obj", "new_callable_bound", "new_callable_obj"):
             want = (3,)
         if want is not None and args != want:
             viol.append(("replacement-got-wrong-arguments", {"convention": name, "recorded": repr(new_calls[0])[:120], "expected_positional": repr(want)[:80]}))
@@ -412,7 +426,7 @@ def cells():
                     if e == "stopall" and a != "startstop":
                         continue
                     for comp in COMPS:
-                        if comp == "nested_same_replacement" and r in ("default", "new_callable", "spec_set"):
+                        if comp == "nested_same_replacement" and r in ("default", "new_callable", "spec_set", "new_callable_fn", "new_callable_bound", "new_callable_obj"):
                             continue  # those create a fresh mock per patch; nothing to share
                         if r == "spec_set" and comp in ("nested",):
                             continue
